@@ -168,6 +168,8 @@ def eval_grad(sc, mode="both"):
     else:
         def split():
             f = ee.calculate(x, compute_functions=True, compute_gradients=False)
+            if f[0].functions is None:          # an optimization stops here (TOO_FEW_REALIZATIONS): no gradient is requested
+                return f
             g = ee.calculate(x, compute_functions=False, compute_gradients=True)
             return (*f, *g)
         res, outcome = outcome_of(split)
